@@ -204,9 +204,11 @@ def _atheris_campaign(prop_id, seed, runs, size):
                         ctr += 1
                     with open(os.path.join(d, 'corpus', 'seed%d' % j), 'wb') as f:
                         f.write(blob[:size])
+            # (-runs bounds the campaign; -max_total_time is only a backstop for workers whose inputs have grown
+            # expensive under instrumentation - what was executed is reported, fewer runs are not a failure)
             cmd = [sys.executable, '-m', 'h2verif.athfuzz', prop_id, d, '-runs=%d' % per,
                    '-seed=%d' % (seed * 1000 + i + 1), '-max_len=%d' % size, '-print_final_stats=1',
-                   os.path.join(d, 'corpus')]
+                   '-max_total_time=%d' % (1800 if per > 5000 else 420), os.path.join(d, 'corpus')]
             procs.append((d, subprocess.Popen(cmd, env=env, cwd=ROOT, stdout=subprocess.DEVNULL,
                                               stderr=subprocess.PIPE, text=True)))
         total = 0
